@@ -135,7 +135,15 @@ def gen_pair(rng, case, how):
     """case in dense1d, dense2d, irr1d, irr2d; how in ok / type / nobs / npoints / dim / grid."""
     dim = 2 if case.endswith("2d") else 1
     n = int(rng.integers(1, 4))
-    if how == "nobs1":
+    if how == "nobs1shared" and case.startswith("dense"):
+        # the single observation is a SUBSET of the other operand (indexing / slicing: the two operands then share
+        # their sampling-points object), on either side
+        n = int(rng.integers(2, 4))
+        pts = [int(rng.integers(2, 5)) for _ in range(dim)]
+        whole = gen_dense(rng, dim, n, pts, divisor=True)
+        one = whole[int(rng.integers(n))] if rng.integers(2) else whole[0:1]
+        return (whole, one) if rng.integers(2) else (one, whole)
+    if how in ("nobs1", "nobs1shared"):
         # one side has a single observation: NumPy would broadcast it
         n = int(rng.integers(2, 4))
         if case.startswith("dense"):
@@ -283,7 +291,7 @@ def arithmetic(rep, col, rng, quick):
     run = C.CoqRun("C12", IMPORTS, shard=10)
     todo = []
     cases = ["dense1d", "dense2d", "irr1d", "irr2d"]
-    hows = ["ok", "ok", "gridlate", "type", "nobs", "npoints", "dim", "grid", "nobs1", "ok"]
+    hows = ["ok", "nobs1shared", "gridlate", "type", "nobs", "npoints", "dim", "grid", "nobs1", "ok"]
     n_pairs = 48 if quick else 800
     for i in range(n_pairs):
         case, how = cases[i % 4], hows[(i // 4) % len(hows)]
